@@ -180,6 +180,15 @@ func (mr *MigrationRunner) runMigration(ctx context.Context, migrationIndex uint
 		return ctx.Err()
 	}
 
+	if err != nil {
+		// Cancelled without intermediate state: the migration did not complete. Clear any stale
+		// state, as documented on Migration, but do not record the migration as applied.
+		if delErr := DeleteIntermediateState(mr.database, migrationIndex); delErr != nil {
+			return fmt.Errorf("deleting intermediate state: %w", delErr)
+		}
+		return err
+	}
+
 	mr.metadata.CurrentVersion.Set(migrationIndex)
 	txn := mr.database.NewBatch()
 	if err := WriteSchemaMetadata(txn, mr.metadata); err != nil {
